@@ -30,8 +30,10 @@
 (*                   the primary, one per other numeric key, `case _`      *)
 (*      StrategyReturn   :524-575  (streaming loops; Content-Type switch   *)
 (*                   ONLY when the return type starts with "Union[" ;      *)
-(*                   structure_from_dict or cast(T, response.json()) - no  *)
-(*                   branch for `str` / `bytes`)                           *)
+(*                   `response.text` for an all-text/* `str` response      *)
+(*                   (since repo commit 27387a3); else structure_from_dict *)
+(*                   or cast(T, response.json()) - no branch for `bytes`,  *)
+(*                   none for a text/plain `$ref` string alias)            *)
 (*      SecondaryReturn  :463-484  (always response.json(), whatever the   *)
 (*                   declared content type)                                *)
 (*      DefaultReturn    :494-505  (the PRIMARY's strategy for the default *)
@@ -356,7 +358,7 @@ TypeKinds(ty) == CASE ty = "Thing" -> {"model:Thing"} [] ty = "Other" -> {"model
                    [] ty = "MaybeThings | None" -> {"list", "none"} [] ty = "Prefs | None" -> {"model:Prefs", "none"} [] OTHER -> {}
 
 \* the ResponseStrategy of a response r = [c, sh]:
-\*   [k : "none" | "aiter_bytes" | "aiter_json" | "switch" | "type", ty : python type (k = "type" / json branch of "switch" / item type)]
+\*   [k : "none" | "aiter_bytes" | "aiter_json" | "switch" | "text" | "type", ty : python type (k = "type" / json branch of "switch" / item type)]
 Strategy(r) ==
   CASE r.c = "none"   -> [k |-> "none", ty |-> "None"]
     [] r.c = "octet"  -> [k |-> "aiter_bytes", ty |-> "bytes"]
@@ -365,6 +367,9 @@ Strategy(r) ==
     [] r.c = "json+text" ->
          \* one unique resolved type => no Union => the Content-Type switch is never emitted
          IF TypeOf(r.sh) = "str" THEN [k |-> "type", ty |-> "str"] ELSE [k |-> "switch", ty |-> TypeOf(r.sh)]
+    \* (repair 27387a3, _write_strategy_based_return: return type exactly `str` AND every declared content type text/* =>
+    \* `return response.text`; a `$ref` to a string alias resolves to the ALIAS name and still takes the cast path)
+    [] r.c = "text" /\ TypeOf(r.sh) = "str" -> [k |-> "text", ty |-> "str"]
     [] OTHER -> [k |-> "type", ty |-> TypeOf(r.sh)]
 
 \* what the signature's annotation admits
@@ -461,7 +466,7 @@ StrategyReturn(imp, s, b) ==
     [] s.k = "aiter_bytes" -> IterBytes(b)
     [] s.k = "aiter_json"  -> IterSseJson(b)
     [] s.k = "switch"      -> IF b.ct = "json" THEN FromJson(imp, s.ty, b) ELSE Returned("str", ServedText(b))
-    [] s.k = "text"        -> Returned("str", ServedText(b))                 \* (fixed only)
+    [] s.k = "text"        -> Returned("str", ServedText(b))
     [] s.k = "aiter_records" -> IterRecords(s.ty, b)                        \* (fixed only)
     [] OTHER               -> FromJson(imp, s.ty, b)
 
